@@ -35,7 +35,8 @@ def _bootstrap_paths() -> None:
 
 
 def _load_findings():
-    p = os.path.join(VERIF, "known_findings.json")
+    # VERIF_FINDINGS: developer-only override so a candidate findings file can be tried without touching the committed one
+    p = os.environ.get("VERIF_FINDINGS") or os.path.join(VERIF, "known_findings.json")
     if not os.path.exists(p):
         return []
     with open(p) as fh:
